@@ -54,8 +54,15 @@ def Transparent (env : Env) (G : NumKind → Grammar) (op : Op) (st : St) : Prop
 
 theorem fuelFor_big (env : Env) : 2 * env.bytes.length + 3 < fuelFor env := by unfold fuelFor; omega
 
-theorem op_transparent_aux (env : Env) (G : NumKind → Grammar) (hG : ∀ k, GrammarOK (G k))
-    (hH : ShiftFixed env) (hI : env.cfg.fixI = true) (op : Op) (st : St) (h : Inv env st) :
+/-- `Good k tok`: the tokens on which the grammar of kind `k` is known to be a function of the token alone.
+An operation is admissible at `rest` if it is not a number read, or the token it will look at is good. -/
+def OpGood (Good : NumKind → List Byte → Prop) (op : Op) (rest : List Byte) : Prop :=
+  ∀ k, op = .readNumber k → tokenAt rest ≠ [] → Good k (tokenAt rest)
+
+theorem op_transparent_aux (env : Env) (G : NumKind → Grammar) (Good : NumKind → List Byte → Prop)
+    (hG : ∀ k, GrammarOKOn (Good k) (G k))
+    (hH : ShiftFixed env) (hI : env.cfg.fixI = true) (op : Op) (st : St) (h : Inv env st)
+    (hgood : OpGood Good op (env.bytes.drop st.offset)) :
     Transparent env G op st := by
   unfold Transparent
   have hf := fuelFor_big env
@@ -94,19 +101,35 @@ theorem op_transparent_aux (env : Env) (G : NumKind → Grammar) (hG : ∀ k, Gr
     rw [canon_readWordSameLine]
     exact readWordSameLine_spec hH G d (fuelFor env) st h hf
   | readNumber k =>
-    exact readNumber_spec hH G k (hG k) (fuelFor env) st h hf
+    exact readNumber_spec hH G k (Good k) (hG k) (fuelFor env) st h hf (hgood k rfl)
 
-theorem transcript_spec (env : Env) (G : NumKind → Grammar) (hG : ∀ k, GrammarOK (G k))
+/-- every number read of the script meets a good token (decided along the spec transcript) -/
+def GoodScript (Good : NumKind → List Byte → Prop) (G : NumKind → Grammar) (bytes : List Byte) :
+    List Op → Nat → Prop
+  | [], _ => True
+  | op :: ops, off =>
+    OpGood Good op (bytes.drop off) ∧ GoodScript Good G bytes ops (off + (specOp G op (bytes.drop off)).2)
+
+theorem transcript_spec (env : Env) (G : NumKind → Grammar) (Good : NumKind → List Byte → Prop)
+    (hG : ∀ k, GrammarOKOn (Good k) (G k))
     (hH : ShiftFixed env) (hI : env.cfg.fixI = true) :
-    ∀ (ops : List Op) (st : St), Inv env st →
+    ∀ (ops : List Op) (st : St), Inv env st → GoodScript Good G env.bytes ops st.offset →
       transcript env G ops st = specTranscript G env.bytes ops st.offset := by
   intro ops
   induction ops with
-  | nil => intro st _; rfl
+  | nil => intro st _ _; rfl
   | cons op ops ih =>
-    intro st h
-    obtain ⟨a, b, c⟩ := op_transparent_aux env G hG hH hI op st h
+    intro st h hgs
+    obtain ⟨hg1, hg2⟩ := hgs
+    obtain ⟨a, b, c⟩ := op_transparent_aux env G Good hG hH hI op st h hg1
     simp only [transcript, specTranscript]
-    rw [ih _ c, a, b]
+    rw [ih _ c (by rw [b]; exact hg2), a, b]
+
+theorem goodScript_of_all (G : NumKind → Grammar) (bytes : List Byte) :
+    ∀ (ops : List Op) (off : Nat), GoodScript (fun _ _ => True) G bytes ops off := by
+  intro ops
+  induction ops with
+  | nil => intro _; trivial
+  | cons op ops ih => intro off; exact ⟨fun _ _ _ => trivial, ih _⟩
 
 end KV.FilePiece
